@@ -244,7 +244,58 @@ def r11(ctx):
     _common.getline_result_rule(ctx, 'C10.R11', lambda f: f.relfile in ('src/lib/ebus/data.cpp', 'src/lib/ebus/datatype.cpp'), 4)
 
 
+def r13(ctx):
+    ctx.rule('C10.R13', 'two bit fields that start at the same bit never share a byte, and a bit field that starts behind the bits '
+             'of the previous one does: SingleDataField::hasFullByteOffset, evaluated from its typed AST (bit position and width '
+             'of the data type supplied as a model) inside the bookkeeping protocol that getLength / read / write run '
+             '(if (!previousFull && !hasFullByteOffset(false, prev)) offset--; ...; previousFull = hasFullByteOffset(true, prev)), '
+             'for every pair of sub-byte fields (first bit 0..7, width 1..7): with equal first bits the second field gets a '
+             'new byte, with a first bit behind the last bit of the first field it stays in the same byte', minimum=1)
+    import tinyeval
+    fb = ctx.fb
+    fn = fb.fn('ebusd::SingleDataField::hasFullByteOffset')
+    ctx.touch(fn)
+    bad = []
+
+    def call(after, prevbox, f, n):
+        m = tinyeval.Machine(fn, {'m_length': 1, 'm_dataType': 1}, [1 if after else 0, tinyeval.Ref(prevbox, 0)])
+        m.methods = {'ebusd::DataType::isNumeric': lambda: 1, 'ebusd::NumberDataType::getFirstBit': lambda: f,
+                     'ebusd::DataType::getBitCount': lambda: n, 'ebusd::NumberDataType::getBitCount': lambda: n}
+        return bool(m.call())
+    try:
+        pairs = 0
+        for fa in range(8):
+            for na in range(1, 8 - fa + 1):
+                if na == 8:
+                    continue
+                for fb_ in range(8):
+                    for nb in range(1, 8 - fb_ + 1):
+                        if nb == 8:
+                            continue
+                        prev = [-1]
+                        prevfull = True
+                        offset = 0
+                        offs = []
+                        for f, n in ((fa, na), (fb_, nb)):
+                            if not prevfull and not call(False, prev, f, n):
+                                offset -= 1
+                            offs.append(offset)
+                            offset += 1
+                            prevfull = call(True, prev, f, n)
+                        pairs += 1
+                        shared = offs[0] == offs[1]
+                        if fb_ == fa and shared and len(bad) < 4:
+                            bad.append('fields at bits %d..%d and %d..%d are put into the same byte' % (fa, fa + na - 1, fb_, fb_ + nb - 1))
+                        if fb_ > fa + na - 1 and fa + na < 8 and not shared and len(bad) < 4:
+                            bad.append('a field at bits %d..%d behind one at %d..%d gets a new byte' % (fb_, fb_ + nb - 1, fa, fa + na - 1))
+    except (tinyeval.Unknown, tinyeval.OutOfBounds) as e:
+        raise AnalysisBroken('C10.R13: hasFullByteOffset not evaluable (%s)' % e)
+    ctx.ob('C10.R13', fn, fn.body, not bad, 'byte sharing of two successive bit fields',
+           '%d pairs of sub-byte fields evaluated: %s%s' % (pairs, not bad, '' if not bad else ' - ' + '; '.join(bad)))
+
+
 def run(ctx):
+    r13(ctx)
     import rules.C12 as _c12b
     ctx.borrow(_c12b.r2, {'C12.R2': 'C10.R12'},
                'a field owns the bits its definition says: the derived type object a definition gets from the cache must have been built for the same width and divisor, so the cache key carries exactly the values the object is constructed with')
